@@ -749,6 +749,12 @@ class Engine:
             else:
                 st.assume(Quant('k', lo, hi, (lambda k, s=s, r=r: r >= z3.Select(s.arr, k)), 'max_element'))
             return r
+        if fn == 'iter.deref':
+            it = self.ev(e.args[0], st)
+            if not isinstance(it, Iter): raise E2Error('dereference of a non-iterator')
+            sq = self.ev_quiet(it.base, st)
+            self.oblige(st, z3.And(it.off >= 0, it.off < sq.n), 'bounds', 'dereferenced iterator points to an element of the sequence')
+            return sq.at(it.off)
         if fn in ('seq.begin', 'seq.end'):
             sq = self.ev_quiet(e.args[0], st)
             return Iter(e.args[0], z3.IntVal(0) if fn == 'seq.begin' else sq.n)
@@ -1938,6 +1944,28 @@ class Verifier(Engine):
                 nb = b
             else:
                 raise E2Error('sequence operation %s (%d args)' % (fn, len(c.args)))
+            self.assign_nocheck(tgt, nb, st)
+            return
+        if c.kind == 'prim' and c.fn == 'std::nth_element' and len(c.args) == 3:
+            # std::nth_element(first, nth, last) by its contract (C++ standard, trusted A3), for the whole sequence only: afterwards the
+            # element at nth is not below any element before it and not above any element after it, and every element is one of the
+            # elements before the call (the consequence of "a permutation" that the contracts use; multiplicities are not modelled)
+            b, lo, hi = self.iter_range(c.args[0], c.args[2], st)
+            nth = self.ev(c.args[1], st)
+            if not isinstance(nth, Iter) or IR.pp_expr(nth.base) != IR.pp_expr(c.args[0].args[0] if c.args[0].k == 'call' and c.args[0].fn == 'seq.begin' else nth.base):
+                raise E2Error('nth_element: nth is not an iterator of the range')
+            if b.lens is not None or isinstance(b.arr, dict) or b.arr is None: raise E2Error('nth_element on a sequence that is not a sequence of scalars')
+            self.oblige(st, z3.And(lo == 0, hi == b.n), 'model', 'std::nth_element is modelled for the whole sequence [begin(), end()) only')
+            self.oblige(st, z3.And(nth.off >= 0, nth.off <= b.n), 'bounds', 'nth lies within [first, last]')
+            tgt = self.ev(c.args[0], st).base
+            nb = self.fresh_val('seq<%s>' % b.et, 'nth_element', st)
+            self._nth_calls = getattr(self, '_nth_calls', 0) + 1
+            pf = z3.Function('nthperm!%d' % self._nth_calls, z3.IntSort(), z3.IntSort())
+            st.assume(nb.n == b.n)
+            st.assume(Quant('k', z3.IntVal(0), nth.off, (lambda k, nb=nb, o=nth.off: z3.Select(nb.arr, k) <= z3.Select(nb.arr, o)), 'nth_element: elements before nth are not above it'))
+            st.assume(Quant('k', nth.off, b.n, (lambda k, nb=nb, o=nth.off: z3.Select(nb.arr, o) <= z3.Select(nb.arr, k)), 'nth_element: elements from nth on are not below it'))
+            st.assume(Quant('k', z3.IntVal(0), b.n, (lambda k, nb=nb, b=b, pf=pf: z3.And(pf(k) >= 0, pf(k) < b.n, z3.Select(nb.arr, k) == z3.Select(b.arr, pf(k)))), 'nth_element: every element is an element of the sequence before the call'))
+            self.notes.append('std::nth_element modelled by its contract (pivot property; every element afterwards is an element before; multiplicities not modelled) (C++ standard, A3)')
             self.assign_nocheck(tgt, nb, st)
             return
         if c.kind == 'prim' and c.fn == 'std::swap':
